@@ -340,7 +340,7 @@ class BinaryPayloadDecoder(object):
             chunks = klass.bit_chunks(coils)
             for chunk in chunks:
                 payload += pack_bitstring(chunk[::-1])
-            return klass(payload, byteorder)
+            return klass(payload, byteorder, wordorder)
         raise ParameterException('Invalid collection of coils supplied')
 
     def _unpack_words(self, fstring, handle):
